@@ -1,5 +1,6 @@
 """C03 - client initialization never settles on a protocol version it did not offer."""
 from harness.sm import *  # noqa
+from symcheck.env import Ticks  # noqa
 from harness import sm
 import importlib
 
@@ -80,9 +81,9 @@ def nego(supported, pref, kind, ans, code, distractor, gaps, T, tracked=True):
     sup_arg = list(supported)
     client = _mk_client() if tracked else None
     if tracked:
-        call = lambda r, w: INIT.send_initialize_with_client_tracking(r, w, client=client, timeout=T, supported_versions=sup_arg, preferred_version=pref)
+        call = lambda r, w: INIT.send_initialize_with_client_tracking(r, w, client=client, timeout=Ticks(T), supported_versions=sup_arg, preferred_version=pref)
     else:
-        call = lambda r, w: INIT.send_initialize(r, w, timeout=T, supported_versions=sup_arg, preferred_version=pref)
+        call = lambda r, w: INIT.send_initialize(r, w, timeout=Ticks(T), supported_versions=sup_arg, preferred_version=pref)
     out = run_stub(_Script(items), call)
     return _judge(out, supported, pref, kind, ans, code, ts[-1] if (kind != A_SILENCE and len(ts)) else None, T, client)
 
